@@ -29,7 +29,8 @@ int main(int argc, char **argv) {
     if (getenv("VERIF_LINEBUF")) setvbuf(g_tr, NULL, _IOLBF, 0);   /* crash diagnosis: the last line is in the file */
     /* the generator steps by a constant: seeds must not differ by a small multiple of it, or neighbouring shards would walk the
        same stream one draw apart */
-    { uint64_t z = seed + 0x632BE59BD9B4E019ULL; z = (z ^ (z >> 30)) * 0xBF58476D1CE4E5B9ULL; z = (z ^ (z >> 27)) * 0x94D049BB133111EBULL; g_rng = z ^ (z >> 31); }
+    if (getenv("VERIF_SEED_V1")) g_rng = seed * 0x9E3779B97F4A7C15ULL + 12345;   /* the seeding of traces recorded before it was changed */
+    else { uint64_t z = seed + 0x632BE59BD9B4E019ULL; z = (z ^ (z >> 30)) * 0xBF58476D1CE4E5B9ULL; z = (z ^ (z >> 27)) * 0x94D049BB133111EBULL; g_rng = z ^ (z >> 31); }
     g_ent = seed ^ 0xDEADBEEFCAFEF00DULL;
     if (getenv("VERIF_RESP_DUMP")) g_resp_dump = fopen(getenv("VERIF_RESP_DUMP"), "w");
     { extern void verif_snapshot_statics(void); verif_snapshot_statics(); }   /* load-time image of the TPM 2 globals (new-process emulation) */
